@@ -79,6 +79,9 @@ func runMint(seed int64, histories, steps int, out *Emitter) {
 			gs[minttypes.ModuleName] = a.AppCodec().MustMarshalJSON(g)
 		}
 		// users hold a second denomination only, so that user 3 (the stipend account) starts at 0 ujkl
+		// (a chain restarted from an exported genesis starts at the height it was exported at: heights
+		// around a change in the number of decimal digits, and past a day's worth of blocks)
+		genesisInitialHeight = []int64{1, 1, 1, 9_980, 99_900, 14_300, 999_950, 28_700}[rand.New(rand.NewSource(seed*7919+int64(hi)+43)).Intn(8)]
 		c := NewChain(4, []string{"utest"}, mut)
 		// the parameters as governance set them (by key) — what the blocks are judged against, whatever
 		// the keeper hands back
